@@ -42,6 +42,9 @@ CHECKS = {
  'C09': dict(level='model_checking', engine='po', technique='SMT partial-order encoding (z3) of the recorded synchronisation traces of the real Server/PlayerThread/Client threads: all interleavings, deadlock query, completion and seeded-bug twins; forced-schedule replay on the real threads',
              text='For each listed session every interleaving of the 9 real threads is covered by one z3 query over order variables and per-thread cuts (Event/Queue/Barrier/join/socket semantics as enabledness constraints): no reachable cut where every unfinished thread is parked at a disabled blocking operation. The traces come from the real code at every run and are validated (SPSC channels, identical under a perturbed schedule, run completed with End of session to all and a complete log). A sat model is forced on the real threads and reported only if the real server then stalls.',
              note='Bounded to the listed sessions (<= 3 boards, bundled policies, two arrival orders). Trusted: the primitive semantics in engine/po.py, z3, the in-memory socket stub. Found the lapping deadlock of the original flag protocol (now fixed by 14a3277) and reproduces it by forced schedule.', ref='§2.3, §4 C09'),
+ 'C20': dict(level='model_checking', technique='symbolic execution (z3) of PlayerThread._connect co-simulated with the real Client._connect from an arbitrary seat table; SMT partial-order encoding of recorded admission sessions (deadlock + seat-table race queries) with forced-schedule replay',
+             text='One admission step for every seat table, seat, version 0..999 and team text of the listed lengths: refused iff wrong version / seat taken / partner team differs; refusal = one ERROR line, closed connection, event set, table unchanged; acceptance = only that seat changes, event set after the table write, client accepts the dialogue and records the opponents. Sessions with invalid requests interleaved (A1, A2): all interleavings of the recorded traces deadlock-free, no seat-table access can change sides, outcomes as specified.',
+             note='Admitted clients are assumed conforming. Sessions bounded to A1/A2 (one board). Trusted: interpreter, regex model, PO primitive semantics.', ref='§4 C20'),
 }
 
 
